@@ -6,6 +6,11 @@
  * REWRITES (R16): vector resize dropped, readarray -> the read stand-in. */
 /*@ uses geoid_read_pixels */
 /*@ ghost */
+/* for callers (CacheAll): which area was asked for */
+unsigned g_CA_calls; double g_CA_south, g_CA_west, g_CA_north, g_CA_east;
+/*@ ghost-init */
+g_CA_calls = 0;
+/*@ ghost */
 #define CA_INV (self->_width >= 2 && self->_width % 2 == 0 && self->_width <= 1000000 && self->_height >= 3 && self->_height % 2 == 1 && self->_height <= 1000001 && \
                 self->_rlonres == self->_width / 360.0 && self->_rlatres == (self->_height - 1) / 180.0)
 /*@ clause pre.invariant src=constructor */
@@ -21,9 +26,14 @@ __CPROVER_ensures(!verif_thrown_other)
 /* the cached rectangle is where rawval's addressing expects it (compare Geoid_rawval_body.c: pre.cache), at most one row beyond each pole */
 __CPROVER_ensures(verif_thrown || !self->_cache ||
    (1 <= self->_xsize && self->_xsize <= self->_width && 0 <= self->_xoffset && self->_xoffset < self->_width &&
-    1 <= self->_ysize && -1 <= self->_yoffset && self->_yoffset + self->_ysize <= self->_height + 1))
+    1 <= self->_ysize && self->_ysize <= self->_height + 2 && -1 <= self->_yoffset && self->_yoffset <= self->_height + 1 - self->_ysize))
 /*@ clause post.rows_complete src=property props=C20 */
 __CPROVER_ensures(verif_thrown || !self->_cache || (g_fill_row == self->_ysize - 1 && g_fill_next == self->_xsize))
+/*@ clause frame.ghost src=ghost only=replace */
+__CPROVER_assigns(g_CA_calls, g_CA_south, g_CA_west, g_CA_north, g_CA_east)
+/*@ clause post.ghost src=ghost only=replace */
+__CPROVER_ensures(g_CA_calls == __CPROVER_old(g_CA_calls) + 1 && VERIF_SAME_D(g_CA_south, south) && VERIF_SAME_D(g_CA_west, west) &&
+                  VERIF_SAME_D(g_CA_north, north) && VERIF_SAME_D(g_CA_east, east))
 /*@ loop 1 rows */
 __CPROVER_assigns(iy, g_geoid_file_ix, g_geoid_file_iy, g_fill_row, g_fill_next)
 __CPROVER_loop_invariant(in <= iy && iy <= is + 1 && (iy == in ? g_fill_row == -1 : (g_fill_row == iy - 1 - in && g_fill_next == self->_xsize)))
